@@ -365,3 +365,66 @@ def loc(e: Emission) -> str:
 def first_line(project, cls_name: str) -> str:
     c = project.cls(cls_name)
     return f"{project.relpath(c.module.path)}:{c.node.lineno}"
+
+
+# ---------------------------------------------------------------------------
+# the assertion stream of the solver driver
+# ---------------------------------------------------------------------------
+SOLVER_ASSERT = ("add", "assert_and_track")
+
+
+def is_solver_handle(t) -> bool:
+    return isinstance(t, tuple) and bool(t) and (
+        (t[0] == "attr" and t[2] == "_solver") or
+        (t[0] in ("call",) and str(t[1]).startswith("z3.") and t[1].split(".")[-1] in ("Optimize", "Solver", "SolverFor")) or
+        (t[0] == "phi" and (is_solver_handle(t[2]) or is_solver_handle(t[3]))) or
+        (t[0] == "loopout" and is_solver_handle(t[4])))
+
+
+def solver_calls(run: Run, names=None):
+    """method calls on the solver handle, in program order"""
+    out = []
+    for ev in run.events:
+        if ev.kind == "mcall" and is_solver_handle(ev.data["recv"]) and (names is None or ev.data["name"] in names):
+            out.append(ev)
+    return out
+
+
+def _spread(loops, guards, term, out, tag):
+    """an asserted python list is asserted element by element"""
+    if isinstance(term, tuple) and term and term[0] == "list":
+        for x in term[1]:
+            if isinstance(x, tuple) and x and x[0] == "each":
+                _spread(tuple(loops) + tuple(x[1]), tuple(guards) + tuple(x[2]), x[3], out, tag)
+            else:
+                _spread(loops, guards, x, out, tag)
+        return
+    if isinstance(term, tuple) and term and term[0] == "attr" and term[2] == "_z3_assertions":
+        l = ("loop", ("spread", show(term)), "spread", term)
+        out.append((tuple(loops) + (l,), tuple(guards), ("elem", l), tag))
+        return
+    if isinstance(term, tuple) and term and term[0] == "phi" and is_app(term[1], "not") and is_app(term[1][2], "isinstance") \
+            and term[2] == ("list", (term[1][2][2],)) and term[3] == term[1][2][2]:
+        # [x] if not isinstance(x, list) else x : x itself, element-wise when it is a list
+        out.append((tuple(loops), tuple(guards), term[3], tag))
+        return
+    out.append((tuple(loops), tuple(guards), term, tag))
+
+
+def solver_stream(run: Run):
+    """[(loops, guards, term, event)] for every assertion handed to the solver handle"""
+    out = []
+    for ev in solver_calls(run, SOLVER_ASSERT):
+        args = ev.data["args"]
+        if not args:
+            continue
+        if ev.data["name"] == "add":
+            for a in args:
+                _spread(ev.loops, ev.guards, a, out, ev)
+        else:
+            _spread(ev.loops, ev.guards, args[0], out, ev)
+    return out
+
+
+def stream_groups(run: Run):
+    return conj_groups([(l, g, t) for l, g, t, _ in solver_stream(run)])
